@@ -101,8 +101,8 @@ CLAIMED.update({
                      "PINGREQ cadence and read time-outs of the real client are checked by the C12 monitor under virtual time; the timed read of the real read_op (abandon exactly at the limit, never earlier, never with keep-alive 0) by the C12 stream monitor on H-stream.",
                 note=COMMON_NOTE + CLIENT_NOTE + "read_op's parallel_group of read and timer is modelled by what it shows to an observer with a clock (Model/TraceRd.lean), not by its asio mechanics.", technique="translator + Lean 4 theorems (arithmetic rules; invariant over all timed histories of the composed keep-alive model) + trace-inclusion correspondence; virtual-time monitors on the real client and the real autoconnect_stream", design="§5 C12", engine="h_client,h_stream"),
     "C13": dict(text="Proof: flag machine (session_present / subscriptions_present, on_connack, update_session_state, SUBACK success) - for every history the number of session_expired reports equals the specification "
-                     "(one per lost session with a successful subscription since the last report; idempotent per connection). Tied by abstract replay: the model's report count on the inputs read off each real-client transcript equals the reports actually delivered. End to end (composed_expired_reports_bounded): in every event list the composed inbound model accepts, the application is handed at most as many session_expired reports as are due; every H-client transcript is replayed through the model.",
-                note=COMMON_NOTE + CLIENT_NOTE, technique="Lean 4 induction over histories of the flag machine + abstract-replay correspondence on real-client transcripts", design="§5 C13", engine="h_client"),
+                     "(one per lost session with a successful subscription since the last report; idempotent per connection). Tied by abstract replay: the model's report count on the inputs read off each real-client transcript equals the reports actually delivered. End to end (composed_expired_reports_bounded): in every event list the composed inbound model accepts, the application is handed at most as many session_expired reports as are due; every H-client transcript is replayed through the model. Where the flag comes from (stored_session_present_is_the_connacks): whatever the broker sends in reply to CONNECT, the Session Present flag the accepted handshake stores is the Connect Acknowledge Flags byte of the received CONNACK; the handshake model is tied to the real connect_op on H-stream (verdict, stored flag, stored properties), and the stream monitor compares the stored flag with the reference decoder also on the enhanced-authentication path.",
+                note=COMMON_NOTE + CLIENT_NOTE, technique="Lean 4 induction over histories of the flag machine + theorem on the handshake model + abstract-replay / handshake correspondence on real-client and real-stream transcripts", design="§5 C13", engine="h_client,h_stream"),
     "C14": dict(text="Proof: verdict model (admit each code, require exactly one admissible code per topic) - success iff count matches and all codes admissible, and then the codes are the acknowledgement's, in order; SUBACK/UNSUBACK routed by (code, id) as in C01. "
                      "Tied by running arbitrary code lists through the real client (H-client) against the model, and by the replies lock-step. End to end (composed_subscribe_success_truthful, composed_good_ack_codes): a success rests on the written request and, afterwards, the well-formed SUBACK/UNSUBACK for its identifier whose codes are exactly the handler's, one admissible code per topic. Composed model (DESIGN.md S.8): the end-to-end statement is ALSO a Lean theorem about every event list accepted by a labelled transition system of the client above the stream (Model/Trace.lean / TraceIn.lean / TraceContent.lean); the real client is tied to it by trace inclusion: every H-client transcript is replayed through the compiled model on every run (lib/trace_check.py), a refusal is a broken correspondence.",
                 note=COMMON_NOTE + CLIENT_NOTE, technique="Lean 4 theorem on the verdict model + differential through the real client; trace monitor + composed observer model with end-to-end theorems, tied by trace inclusion of real-client transcripts", design="§5 C01/C14", engine="h_client,h_replies"),
@@ -189,7 +189,7 @@ def main():
             {"name": "h_codec", "path": "/verif/harness/h_codec.cpp", "serves_properties": ["C17"], "kind_free_text": "real message encoders (and decoders) on textual packet descriptions"},
             {"name": "h_pid", "path": "/verif/harness/h_pid.cpp", "serves_properties": ["C08"], "kind_free_text": "real packet_id_allocator, alloc/free scripts, state dump"},
             {"name": "h_mutex", "path": "/verif/harness/h_mutex.cpp", "serves_properties": ["C11"], "kind_free_text": "real async_mutex with per-waiter cancellation slots on a polled io_context"},
-            {"name": "h_stream", "path": "/verif/harness/h_stream.cpp", "serves_properties": ["C02","C10","C11","C12","C15","C19"], "kind_free_text": "real autoconnect_stream, reconnect_op, connect_op, read_op, write_op, shutdown_op, resolve_op, endpoints::brokers parser over a scripted socket, resolver and virtual clock (immediate or deferred cancellation); driven online by lib/stream_gen.py"},
+            {"name": "h_stream", "path": "/verif/harness/h_stream.cpp", "serves_properties": ["C02","C05","C10","C11","C12","C13","C15","C19"], "kind_free_text": "real autoconnect_stream, reconnect_op, connect_op, read_op, write_op, shutdown_op, resolve_op, endpoints::brokers parser over a scripted socket, resolver and virtual clock (immediate or deferred cancellation); driven online by lib/stream_gen.py"},
             {"name": "h_pubsend", "path": "/verif/harness/h_pubsend.cpp", "serves_properties": ["C01","C03","C05","C08","C20"], "kind_free_text": "real publish_send_op (QoS 1 and 2) on a mock service: every async_send / async_wait_reply logged and completed by script"},
             {"name": "h_frame", "path": "/verif/harness/h_frame.cpp", "serves_properties": ["C19"], "kind_free_text": "real assemble_op on a mock service: broker bytes in any chunking, every recognised packet and read size logged"},
             {"name": "h_guard", "path": "/verif/harness/h_guard.cpp", "serves_properties": ["C18","C19"], "kind_free_text": "real message decoders on packets in exact-size heap blocks under ASan/UBSan"},
